@@ -38,6 +38,9 @@ Record mobs := mkMobs {
   mo_num : N; mo_limit : N;
   mo_members : list (addr * N);
   mo_has : list (addr * result bool);
+  mo_member : list (addr * result N);          (* Member { member } (flex) *)
+  mo_can : list (addr * result bool);          (* CanExecute { sender } *)
+  mo_admins : list addr * bool;                 (* AdminList *)
   mo_ledger : ledger
 }.
 Inductive mstep := MExec (e : env) (o : op) (ok : bool) (obs : mobs).
@@ -46,6 +49,9 @@ Definition mobs_ok (w : wl) (l : ledger) (o : mobs) : bool :=
   (w_num w =? mo_num o) && (w_limit w =? mo_limit o) &&
   list_eqb pair_eqb (msort (w_mem w)) (mo_members o) &&
   forallb (fun p => rbool_eqb (q_has valid_id (fst p) w) (snd p)) (mo_has o) &&
+  forallb (fun p => result_eqb N.eqb (q_member valid_id (fst p) w) (snd p)) (mo_member o) &&
+  forallb (fun p => rbool_eqb (q_can_execute valid_id (fst p) w) (snd p)) (mo_can o) &&
+  list_eqb N.eqb (fst (q_admin_list w)) (fst (mo_admins o)) && Bool.eqb (snd (q_admin_list w)) (snd (mo_admins o)) &&
   ledger_eqb l (mo_ledger o).
 
 Fixpoint msteps_ok (w : wl) (l : ledger) (s : list mstep) : bool :=
@@ -65,6 +71,11 @@ Record tobs := mkTobs {
   to_beyond : list (addr * N);                 (* Members { stage_id = #stages } *)
   to_probe : list (N * addr * result bool);    (* StageMemberInfo.is_member *)
   to_has : list (addr * result bool);          (* HasMember at the current instant *)
+  to_all : list (addr * result (list (N * bool * N)));   (* AllStageMemberInfo { member } *)
+  to_member : list (addr * result N);          (* Member { member } at the current instant (flex) *)
+  to_stage_beyond_ok : bool;                   (* Stage { stage_id = #stages } answered at all *)
+  to_can : list (addr * result bool);          (* CanExecute { sender } *)
+  to_admins : list addr * bool;                (* AdminList *)
   to_ledger : ledger
 }.
 Inductive tstep := TExec (e : env) (o : top) (ok : bool) (obs : tobs).
@@ -77,12 +88,19 @@ Fixpoint stages_obs_ok (w : tw) (k : N) (l : list (N * list (addr * N))) : bool 
       result_eqb N.eqb (tq_stage_count k w) (Ok c) && list_eqb pair_eqb (stage_list k w) ms &&
       stages_obs_ok w (k + 1) t
   end.
+Definition info_eqb (p q : N * bool * N) : bool :=
+  (fst (fst p) =? fst (fst q)) && Bool.eqb (snd (fst p)) (snd (fst q)) && (snd p =? snd q).
 Definition tobs_ok (now : N) (w : tw) (l : ledger) (o : tobs) : bool :=
   (t_num w =? to_num o) && (t_limit w =? to_limit o) && (nlen (t_stages w) =? to_nstages o) &&
   (nlen (to_stages o) =? to_nstages o) && stages_obs_ok w 0 (to_stages o) &&
   list_eqb pair_eqb (stage_list (to_nstages o) w) (to_beyond o) &&
   forallb (fun p => rbool_eqb (tq_stage_member valid_id (fst (fst p)) (snd (fst p)) w) (snd p)) (to_probe o) &&
   forallb (fun p => rbool_eqb (tq_has valid_id now (fst p) w) (snd p)) (to_has o) &&
+  forallb (fun p => result_eqb (list_eqb info_eqb) (tq_all_member valid_id (fst p) w) (snd p)) (to_all o) &&
+  forallb (fun p => result_eqb N.eqb (tq_member valid_id now (fst p) w) (snd p)) (to_member o) &&
+  Bool.eqb (is_ok (tq_stage_count (to_nstages o) w)) (to_stage_beyond_ok o) &&
+  forallb (fun p => rbool_eqb (tq_can_execute valid_id (fst p) w) (snd p)) (to_can o) &&
+  list_eqb N.eqb (fst (tq_admin_list w)) (fst (to_admins o)) && Bool.eqb (snd (tq_admin_list w)) (snd (to_admins o)) &&
   ledger_eqb l (to_ledger o).
 
 Fixpoint tsteps_ok (w : tw) (l : ledger) (s : list tstep) : bool :=
@@ -102,7 +120,11 @@ Inductive c11_case :=
 | C11THist (flex : bool) (e : env) (m : timsg) (obs0 : tobs) (steps : list tstep)
 (* whitelist-immutable: AddressCount, the raw stored keys, IncludesAddress probes *)
 | C11ImmFail (funds : list coin) (ms : list addr)
-| C11Imm (funds : list coin) (ms : list addr) (count : N) (stored : list addr) (probes : list (addr * bool)).
+| C11Imm (funds : list coin) (ms : list addr) (count : N) (stored : list addr) (probes : list (addr * bool))
+(* + Config {admin, per_address_limit, mint_discount_bps}, Admin, PerAddressLimit as
+   answered, and ok/err of the execute calls tried (there is no execute message) *)
+| C11ImmCfg (sender : addr) (pal : N) (bps : option N) (funds : list coin) (ms : list addr)
+            (cfg : addr * N * option N) (admin : addr) (pal_q : N) (execs : list bool).
 
 Definition L0 : ledger := mkL 0 0 0 0.
 
@@ -128,4 +150,10 @@ Definition c11_check (c : c11_case) : bool :=
           forallb (fun p => Bool.eqb (imm_includes (fst p) st) (snd p)) probes
       | Err => false
       end
+  | C11ImmCfg sender pal bps fs ms cfg admin pal_q execs =>
+      let c := imm_config sender pal bps in
+      is_ok (imm_inst fs ms) &&
+      (fst (fst c) =? fst (fst cfg)) && (snd (fst c) =? snd (fst cfg)) && option_eqb N.eqb (snd c) (snd cfg) &&
+      (fst (fst c) =? admin) && (snd (fst c) =? pal_q) &&
+      forallb (fun ok => Bool.eqb ok (is_ok imm_exec)) execs
   end.
